@@ -222,10 +222,8 @@ pub proof fn lemma_filter_all<V>(s: Seq<VersionedOperation<V>>, e: Epoch)
             broadcast use vstd::seq_lib::group_seq_properties, vstd::seq_lib::group_to_multiset_ensures;
             let ghost view0 = heap_view(heap_lock);
             proof {
-                // the peeked operation is the oldest one: every other operation has an epoch at least as large
-                assert forall|i: int| 0 <= i < view0.len() implies (#[trigger] view0[i]).epoch.0 >= peek.epoch.0 by {
-                    axiom_is_top(view0, *peek, i);
-                }
+                // whatever the heap reports as its top is the oldest operation: every other one has an epoch at least as large
+                // (stated for ANY top element, not for a local of the loop body: renaming that local must not break the proof)
                 assert forall|t2: VersionedOperation<V>, i: int| #![trigger is_top(view0, t2), view0[i]] is_top(view0, t2) && 0 <= i < view0.len()
                     implies view0[i].epoch.0 >= t2.epoch.0 by {
                     axiom_is_top(view0, t2, i);
